@@ -124,6 +124,38 @@ let show_outcome dt shape zs = function
   | Undefined -> "ub"
 let show_option dt shape = function Some m -> show_f dt shape m | None -> "ub"
 
+(* layouts: the `lay` op re-uses the handlers below with "some buffer (operand or result) is not row-major" forced *)
+let not_rm = ref false
+let rm col = not col && not !not_rm
+
+(* ---- lane functions (Simd.v, Section LaneMax) at OCaml floats: what the packed lanes of a context compute.
+   x86 intrinsics and SIMDe: max_sd(a,b) = a > b ? a : b; vector extensions: fmax / fmin per lane, whose zero/zero
+   tie has no specified sign -> two admissible lane functions.  Every other op: the scalar functor itself. *)
+let fgt (a : float) (b : float) = a > b
+let fnan (a : float) = a <> a
+let lane_fns ctx op (f : float -> float) : (float -> float) list =
+  let vext = (ctx = "v128" || ctx = "v256" || ctx = "v512") in
+  match op, vext with
+  | "relu", false -> [relu_x86 fgt 0.0]
+  | "relu6", false -> [relu6_x86 fgt 0.0 6.0]
+  | "relu", true -> [relu_vext fgt fnan false 0.0; relu_vext fgt fnan true 0.0]
+  | "relu6", true -> [relu6_vext fgt fnan false 0.0 6.0; relu6_vext fgt fnan true 0.0 6.0]
+  | _ -> [f]
+(* the model's prediction of a unary evaluation: exact bit patterns; "a|b" where the fmax zero tie admits two *)
+let unary_model ctx dt op shape row_major f xs scalar =
+  let n = i2n (lanes ctx dt) in
+  let zs = zeros (List.length xs) in
+  let outs = List.map (fun g -> eval_unary_lane_top n row_major g f xs zs scalar) (lane_fns ctx op f) in
+  let toks = List.map (function Done m -> Some (List.map (bits dt) m) | _ -> None) outs in
+  if List.exists (fun t -> t = None) toks then "ub" else
+  let toks = List.map (function Some t -> t | None -> []) toks in
+  let merged = List.fold_left (fun acc t -> List.map2 (fun a b -> if List.mem b (String.split_on_char '|' a) then a else a ^ "|" ^ b) acc t)
+                 (List.hd toks) (List.tl toks) in
+  "ok " ^ show_ints shape ^ " ;" ^ (if merged = [] then "" else " " ^ String.concat "," merged)
+(* hypothesis of C12_unary_lane_eq_map: every admissible lane function agrees with f, bit for bit, on every input *)
+let lane_is_f ctx dt op f xs =
+  List.for_all (fun g -> List.for_all (fun x -> bits dt (g x) = bits dt (f x)) xs) (lane_fns ctx op f)
+
 let unary_op dt name : float -> float =
   match name with
   | "sqrt" -> (fun x -> rnd dt (sqrt x))
@@ -170,10 +202,10 @@ let () =
     let n = lanes ctx dt in
     if ctx = "none" then { model = spec; spec; dom = true } else
     let col = is_col rest 1 in
-    let zs = zeros (List.length xs) in
-    let m = show_outcome dt shape zs (eval_unary_top (i2n n) (not col) f xs zs scalar) in
-    (* C12_unary_eq_map (row-major) / C12_not_row_major_falls_back; the lane operation is f (not so for special values) *)
-    { model = m; spec; dom = not sp });
+    ignore n; ignore sp;
+    let m = unary_model ctx dt op shape (rm col) f xs scalar in
+    (* C12_unary_lane_eq_map (row-major, lane function = f on these inputs) / C12_not_row_major_falls_back *)
+    { model = m; spec; dom = (not (rm col)) || lane_is_f ctx dt op f xs });
   register "binary" (fun a ->
     let (ctx, dt, op, den, rest) = args_common a in
     let (ls, lx, _) = arr dt den (List.nth rest 0) and (rs, rx, _) = arr dt den (List.nth rest 1) in
@@ -189,10 +221,10 @@ let () =
       let col = is_col rest 2 in
       let size = prod os in
       let zs = zeros size in
-      let m = show_outcome dt os zs (eval_binary_top n f (not col) (nat os) (nat ls) (nat rs) lx rx zs scalar) in
+      let m = show_outcome dt os zs (eval_binary_top n f (rm col) (nat os) (nat ls) (nat rs) lx rx zs scalar) in
       (* same shape: C12_binary_same_eq; both 2-d: C12_binary_2d_eq_on_domain; other patterns: C12_binary_refused_falls_back;
          a column-major operand: C12_not_row_major_falls_back *)
-      let dom = col || ls = rs || not (List.length ls = 2 && List.length rs = 2)
+      let dom = not (rm col) || ls = rs || not (List.length ls = 2 && List.length rs = 2)
                 || b2d_dom (lanes ctx dt) (two os) (two ls) (two rs) in
       { model = m; spec; dom });
   register "outer" (fun a ->
@@ -205,8 +237,9 @@ let () =
     if ctx = "none" then { model = spec; spec; dom = true } else
     let n = i2n (lanes ctx dt) in
     let zs = zeros (prod os) in
-    let m = show_outcome dt os zs (eval_outer_top n f true (List.map i2n ls) (List.map i2n rs) lx rx zs scalar) in
-    { model = m; spec; dom = false });
+    let m = show_outcome dt os zs (eval_outer_top n f (rm false) (List.map i2n ls) (List.map i2n rs) lx rx zs scalar) in
+    (* eval_outer itself is corresponded only; a non-row-major buffer: C12_not_row_major_falls_back *)
+    { model = m; spec; dom = not (rm false) });
   register "reduce" (fun a ->
     let (ctx, dt, op, den, rest) = args_common a in
     let (shape, xs, _) = arr dt den (List.nth rest 0) in
@@ -225,7 +258,7 @@ let () =
         let spec = if exact then show_f dt oshape scalar else "unspecified" in
         if ctx = "none" then { model = spec; spec; dom = true } else
         let m = show_outcome dt oshape [0.0]
-                  (eval_reduction_top (i2n n) f 0.0 ident true (List.map i2n shape) (List.map (fun _ -> i2n 1) shape) None init xs scalar) in
+                  (eval_reduction_top (i2n n) f 0.0 ident (rm false) (List.map i2n shape) (List.map (fun _ -> i2n 1) shape) None init xs scalar) in
         (* C12_reduce_full_on_domain (initial included) *)
         { model = m; spec; dom = exact }
     | Some ax ->
@@ -240,12 +273,12 @@ let () =
         if ctx = "none" then { model = spec; spec; dom = true } else
         let horizontal = (ax' = dim - 1) in
         let m = show_outcome dt oshape (zeros (prod oshape))
-                  (eval_reduction_top (i2n n) f 0.0 ident true (List.map i2n shape) (List.map i2n outk)
+                  (eval_reduction_top (i2n n) f 0.0 ident (rm false) (List.map i2n shape) (List.map i2n outk)
                      (Some (ax < 0, i2n (abs ax))) init xs scalar) in
         let full = prod oshape = 1 in
         (* C12_reduce_full_on_domain / C12_reduce_horizontal_core (initial included); the vertical arm is proved for
            its 2-d core, the n-d reshape in front of it is corresponded only *)
-        let dom = exact && (full || horizontal) in
+        let dom = exact && (full || horizontal || not (rm false)) in
         { model = m; spec; dom })
 
 (* ---------------------------------------------------------------- adversarial values (bit patterns of doubles) *)
@@ -263,11 +296,10 @@ let () =
         let scalar = spec_unary f xs in
         let spec = show_f dt shape scalar in
         if ctx = "none" then { model = spec; spec; dom = true } else
-        let zs = zeros (List.length xs) in
-        let m = show_outcome dt shape zs (eval_unary_top (i2n (lanes ctx dt)) true f xs zs scalar) in
-        (* the theorem's premise "lane operation = f" is what this stream probes: dom = 1 everywhere except where
-           it is known to fail (relu / relu6 on -0.0 / NaN) *)
-        { model = m; spec; dom = not ((op = "relu" || op = "relu6") && List.exists is_special xs) }
+        let m = unary_model ctx dt op shape true f xs scalar in
+        (* the theorem's premise "lane function = f on these inputs" is what this stream probes; where it is known
+           to fail (relu6 on -0.0 / NaN, the fmax zero tie) the model is the exact lane result *)
+        { model = m; spec; dom = lane_is_f ctx dt op f xs }
     | _ -> failwith "unaryx");
   register "binaryx" (fun a -> match a with
     | [ctx; dt; op; lshp; lhx; rshp; rhx] ->
@@ -286,4 +318,18 @@ let () =
            let m = show_outcome dt os zs (eval_binary_top (i2n (lanes ctx dt)) f true (nat os) (nat ls) (nat rs) lx rx zs scalar) in
            { model = m; spec; dom = true })
     | _ -> failwith "binaryx")
+
+(* ---------------------------------------------------------------- operand layout x result layout *)
+let () =
+  register "lay" (fun a -> match a with
+    | ctx :: dt :: kind :: op :: lo :: res :: den :: rest ->
+        let all_row = String.for_all (fun c -> c = 'r') (getS lo) && getS res = "R" in
+        let h = Hashtbl.find handlers (getS kind) in
+        let rest' = (match getS kind, rest with
+                     | "reduce", [x; ax; kd] -> [x; ax; kd; N]
+                     | _, r -> r) in
+        not_rm := not all_row;
+        let r = (try h (ctx :: dt :: op :: den :: rest') with e -> not_rm := false; raise e) in
+        not_rm := false; r
+    | _ -> failwith "lay")
 
